@@ -76,13 +76,16 @@ EXNS = [("ex", "http://example.org/"), ("ex2", "http://example.org/2/"), ("dc", 
 ODD_PREFIXES = [("default", "http://prefix-named-default.example/"), ("xsd", "http://not-xml-schema.example/"), ("prov", "http://not-prov.example/")]
 
 STRINGS = ["plain", "", "with \"double\" quotes", "it's", "line1\nline2", "tab\there", "back\\slash", "unicode é中\U0001F600",
-           "<tag> & entity;", " leading and trailing ", "percent %s {brace}", "'''", "\"\"\"", "a\rb"]
+           "<tag> & entity;", " leading and trailing ", "percent %s {brace}", "'''", "\"\"\"", "a\rb",
+           "combining e\u0301 and a\u030a", "signs \u212b \u2126 \ufb01"]        # not stable under Unicode normalisation
 INTS = [0, 1, -1, 42, 2 ** 31 - 1, 2 ** 31, -2 ** 31 - 1, 2 ** 63, 10 ** 30]
 FLOATS = [0.0, 1.5, -2.25, 1e-7, 123456789.123, 1e300, 3.0]
 TZ = [None, datetime.timezone.utc, datetime.timezone(datetime.timedelta(hours=5, minutes=30)), datetime.timezone(datetime.timedelta(hours=-8))]
 
 
 def gen_datetime(rng):
+    if rng.random() < 0.15:       # on the full hour / at midnight
+        return datetime.datetime(rng.choice([1999, 2012, 2024]), rng.randint(1, 12), rng.randint(1, 28), rng.choice([0, 9, 23]), 0, 0, tzinfo=rng.choice(TZ))
     return datetime.datetime(rng.choice([1999, 2012, 2024]), rng.randint(1, 12), rng.randint(1, 28), rng.randint(0, 23), rng.randint(0, 59),
                              rng.randint(0, 59), rng.choice([0, 0, 500000, 123456]), tzinfo=rng.choice(TZ))
 
@@ -153,7 +156,12 @@ class Gen:
         if k == "lang":
             return Literal(rng.choice(["bonjour", "hello \"q\"", "grüß"]), langtag=rng.choice(["fr", "en", "de-AT"]))
         if k == "typed-literal":
-            choice = rng.randint(0, 4)
+            choice = rng.randint(0, 6)
+            if choice >= 5:               # an application-defined datatype in a namespace the container declares
+                n = rng.choice(ns)
+                if n.prefix and n.prefix != "unreg":
+                    used.add("app-datatype")
+                    return Literal(rng.choice(["12 in", "3.5"]), n[rng.choice(["length", "score"])])
             if choice == 0:
                 return Literal("2012-03", XSD["gYearMonth"])
             if choice == 1:
@@ -424,6 +432,24 @@ def drop_collisions(s, keys=None):
             nrecs[(t, i, tuple(sorted(kept, key=repr)))] += n
         out[b] = tuple(sorted(nrecs.items(), key=repr))
     return out
+
+
+def scoped_datatype_document():
+    """application-defined datatypes written with one prefix that the document and its bundles bind differently, and
+    with a prefix only a later bundle declares"""
+    from prov.model import ProvDocument
+    d = ProvDocument()
+    d.add_namespace("u", "http://units.example/metric#")
+    d.add_namespace("ex", "http://example.org/")
+    d.entity("ex:rod", {"ex:len": Literal("2.5", d.valid_qualified_name("u:length")), "ex:w": Literal("7", d.valid_qualified_name("u:mass"))})
+    b1 = d.bundle("ex:b1")
+    b1.add_namespace("u", "http://units.example/imperial#")
+    b1.entity("ex:rod", {"ex:len": Literal("8.2", b1.valid_qualified_name("u:length"))})
+    b2 = d.bundle("ex:b2")
+    b2.add_namespace("late", "http://late.example/")
+    b2.entity("ex:rod", {"ex:len": Literal("1", b2.valid_qualified_name("late:length")), "ex:m": Literal("2", b2.valid_qualified_name("u:length"))})
+    d._features = ["scoped-datatypes"]
+    return d
 
 
 def wellknown_document():
